@@ -143,6 +143,14 @@ CHECKS = {
         "Structural rules from PS3.8 9.3.2/9.3.3 and PS3.5.",
         "3/C12",
     ),
+    "C13": (
+        "exploration",
+        "enum",
+        "enumeration of AE-title byte fields x policy configurations x identity handler behaviours against a real acceptor under the simulator, compared with a reference policy",
+        "A raw peer sends reference-built A-ASSOCIATE-RQs whose calling/called title fields range over all non-blank strings of length <= 3 over {A,a,space} placed left/right/centred in the 16-byte field (plus 16-character, inner-space and NUL-padded forms) for four required-calling lists, the called-title check with three own titles, and user-identity types 1..5 x {unbound, (True,None), (True,response), (False,None), raises}; established iff every enabled check passes, otherwise A-ASSOCIATE-RJ with a documented triple of a failed check and no service handler invocation; accepted associations must serve a C-ECHO.",
+        "Precedence between several failed checks is not judged; NUL-padded titles are unconstrained.",
+        "3/C13",
+    ),
     "C14": (
         "model_checking",
         "sim",
